@@ -30,6 +30,8 @@ type lifePool struct {
 	connectFail bool
 	updateFail  bool
 	updates     int64
+	gate        chan struct{} // when set, Connect announces itself on entered and waits for the gate
+	entered     chan struct{}
 }
 
 func (p *lifePool) Host(ctx context.Context, r pool.HostRequest) (*pool.HostResponse, error) {
@@ -39,6 +41,16 @@ func (p *lifePool) Client(ctx context.Context, r pool.ClientRequest) (*pool.Clie
 	return &pool.ClientResponse{}, nil
 }
 func (p *lifePool) Connect(ctx context.Context, r pool.ConnectRequest) (*pool.ConnectResponse, error) {
+	p.mu.Lock()
+	gate, entered := p.gate, p.entered
+	p.mu.Unlock()
+	if gate != nil {
+		entered <- struct{}{}
+		select {
+		case <-gate:
+		case <-time.After(3 * time.Second):
+		}
+	}
 	p.mu.Lock()
 	defer p.mu.Unlock()
 	if p.connectFail {
@@ -243,6 +255,73 @@ func c20Sequence(ctx *Ctx, i int, rng *rand.Rand) {
 	ctx.Emit(Case{I: i, Kind: "lifecycle", Coq: coq, Desc: map[string]interface{}{"ops": ops}, Monitor: mon})
 }
 
+// c20Overlap: several Start calls overlap (the pool is slow to answer the registration).  When
+// they have all returned at most one may have succeeded, and exactly one keep-alive loop runs;
+// one Stop ends it and Wait returns.
+func c20Overlap(ctx *Ctx, i int, rng *rand.Rand) {
+	node := &recNode{kind: ethnode.Geth, connFail: -1}
+	lp := &lifePool{gate: make(chan struct{}), entered: make(chan struct{}, 8)}
+	a := &agent.Agent{EthNode: node, UpdateInterval: c20Interval, NumHosts: 0}
+	k := 2 + rng.Intn(3)
+	results := make(chan error, k)
+	for j := 0; j < k; j++ {
+		go func() { results <- a.Start(lp) }()
+		if j == 0 {
+			select { // the first registration is in flight at the pool
+			case <-lp.entered:
+			case <-time.After(2 * time.Second):
+			}
+		} else {
+			time.Sleep(10 * time.Millisecond)
+		}
+	}
+	time.Sleep(50 * time.Millisecond)
+	close(lp.gate)
+	ok, refused, other := 0, 0, 0
+	for j := 0; j < k; j++ {
+		select {
+		case err := <-results:
+			switch {
+			case err == nil:
+				ok++
+			case err == agent.ErrAlreadyStarted:
+				refused++
+			default:
+				other++
+			}
+		case <-time.After(5 * time.Second):
+			other++
+		}
+	}
+	var mon []string
+	if ok > 1 {
+		mon = append(mon, fmt.Sprintf("c20-overlapping-starts-accepted: %d Start calls overlapped while the pool was answering the first registration; %d of them succeeded (at most one may; the others must be refused as already started)", k, ok))
+	}
+	n, rate := measureLoops(lp)
+	if n >= 2 {
+		mon = append(mon, fmt.Sprintf("c20-two-loops: after %d overlapping Start calls %.2f keep-alives are sent per interval: %d keep-alive loops are running", k, rate, n))
+	}
+	if ok >= 1 && n == 0 {
+		mon = append(mon, fmt.Sprintf("c20-no-loop-after-start: a Start succeeded yet no keep-alives are being sent (%.2f per interval)", rate))
+	}
+	stopped := make(chan struct{})
+	go func() { a.Stop(); a.Wait(); close(stopped) }()
+	select {
+	case <-stopped:
+		if n2, rate2 := measureLoops(lp); n2 >= 1 {
+			mon = append(mon, fmt.Sprintf("c20-loop-survives-stop: after Stop and Wait returned, %.2f keep-alives per interval are still being sent", rate2))
+			for j := 0; j < n2; j++ { // clean up
+				go a.Stop()
+			}
+		}
+	case <-time.After(2 * time.Second):
+		if ok >= 1 {
+			mon = append(mon, "c20-stop-blocked: Stop/Wait did not return within 2 s although a Start had succeeded")
+		}
+	}
+	ctx.Emit(Case{I: i, Kind: "overlapping-starts", Desc: map[string]interface{}{"starts": k, "succeeded": ok, "refused": refused, "other": other, "loops": n}, Monitor: mon})
+}
+
 // c20CLI runs the built agent binary with update intervals around the bounds and observes
 // whether it refuses them.
 func c20CLI(ctx *Ctx, i int) {
@@ -319,6 +398,11 @@ func runC20(ctx *Ctx) {
 		}(c)
 	}
 	wg.Wait()
+	for c := 0; c < ctx.N(3, 30); c++ {
+		if ctx.Want(n + 1 + c) {
+			c20Overlap(ctx, n+1+c, ctx.Sub(n+1+c))
+		}
+	}
 	if ctx.Want(n) {
 		c20CLI(ctx, n)
 	}
